@@ -330,7 +330,7 @@ def fifo_steps(prog: dict) -> int:
 
 
 def redeliver(prog: dict, victim_step: int, redeliver_after: int, restart: bool = False,
-              reset_bloom: bool = False, trust: bool = False) -> dict:
+              reset_bloom: bool = False, trust: bool = False, fault: bool = False) -> dict:
     """FIFO run in which the ack of the `victim_step`-th delivery is lost; the message comes back
     `redeliver_after` deliveries later (optionally across a process restart / filter rotation)."""
     run = Run(prog, "redeliver", dedup_trust=trust)
@@ -350,7 +350,7 @@ def redeliver(prog: dict, victim_step: int, redeliver_after: int, restart: bool 
                 if reset_bloom:
                     run.bloom_reset()
                 run.expire(victim)
-                run.deliver(victim)
+                run.deliver(victim, lookup_fault=fault)     # (fault: the durable duplicate look-up of the redelivery fails once)
                 victim = None
                 continue
             if vis:
@@ -364,7 +364,7 @@ def redeliver(prog: dict, victim_step: int, redeliver_after: int, restart: bool 
             if r in ("empty", "locked"):
                 break
         return run.as_trace({"kind": "redeliver", "victim": victim_step, "after": redeliver_after,
-                             "restart": restart, "reset": reset_bloom, "trust": trust})
+                             "restart": restart, "reset": reset_bloom, "trust": trust, "fault": fault})
     finally:
         run.close()
 
